@@ -3,9 +3,11 @@ package core
 import (
 	"bytes"
 	"context"
+	"fmt"
 	"hash/crc32"
 	"io"
 	"io/ioutil"
+	"strings"
 	"time"
 
 	context2 "github.com/oneconcern/datamon/pkg/context"
@@ -17,6 +19,18 @@ import (
 	"github.com/oneconcern/datamon/pkg/model"
 	"github.com/oneconcern/datamon/pkg/storage"
 )
+
+// checkLabelKey refuses labels that cannot be stored under a key of their own: a name must be a single,
+// non-empty path element (dotted names such as v1.2.3 are fine), and a label must point at some bundle.
+func checkLabelKey(d model.LabelDescriptor) error {
+	if d.Name == "" || d.Name == "." || d.Name == ".." || strings.Contains(d.Name, "/") {
+		return fmt.Errorf("invalid label name %q: a label name must be a non-empty path element", d.Name)
+	}
+	if d.BundleID == "" {
+		return fmt.Errorf("empty field: label bundleID is empty")
+	}
+	return nil
+}
 
 // Label describes a bundle label.
 //
@@ -63,7 +77,7 @@ func (label *Label) UploadDescriptor(ctx context.Context, bundle *Bundle) (err e
 	}
 	label.Descriptor.BundleID = bundle.BundleID
 	// a label name is a path element of the label's key: refuse names that could not be listed back
-	if err = model.ValidateLabel(label.Descriptor); err != nil {
+	if err = checkLabelKey(label.Descriptor); err != nil {
 		return err
 	}
 	buffer, err := yaml.Marshal(label.Descriptor)
